@@ -335,26 +335,43 @@ Proof. vm_compute. repeat split; try reflexivity; eexists; repeat split; reflexi
    n0 and the names in the AddFile steps are what tempfile drew (inputs of the steps).
    Hypotheses: f0 is well formed (what exists lies in a directory), the tmp_dir is a
    directory, the drawn name is new.
-   `writes_ok` is the protocol of the callers (run_mapping): the environment writes only
-   to locations real_location has returned so far.  It is a HYPOTHESIS on the environment,
-   not something the tracker enforces.
+
+   THE ENVIRONMENT.  Earlier versions assumed `writes_ok` ("the environment writes only to
+   locations real_location has returned") and called it the protocol of run_mapping.  The real
+   _run_mapping does not keep to it (audit 3, defect 5): while its tracker lives it writes the
+   query-marker cache — mkstemp_clean(dir=tmp_dir, prefix='query_marker_'), a SIBLING of the
+   tracker's own directory in the scratch directory —, the result-buffer files and the CSV, none
+   of which was handed out (ex_real_life: writes_ok = false on the life of the real caller).
+   The theorems below assume NOTHING about where the environment writes: `written mid` (W) is the
+   set of paths it writes, and the conclusions are relative to it —
+     an input is untouched if the environment does not write THAT path,
+     what is new after del lies in  requested ∪ W,
+     every path the environment wrote holds its last write.
+   In this model the environment can only write files (it cannot remove anything or make a
+   directory: Model/Tracker.v `WriteTo`); under that alphabet no discipline of the environment is
+   needed for the tracker's own guarantees.  What remains as hypothesis is collected in the boolean
+   `life_premise` (c19_tracker_premise), which the harness evaluates on the life RECORDED FROM A
+   REAL run_mapping on every run (harness/props/c19_tracker.py, class
+   tracker-premise-false-on-real-run).
    (imported here: Model/Tracker.v reuses the names step / run / Create / del of FsModel)
    ==================================================================================== *)
 From CTM Require Import Model.Tracker Proofs.TrackerP.
 
-(* (1) With a tmp_dir: every file that existed before the tracker was made has its content
-   while the tracker lives and after del — whatever was added, in whatever mode.  In
-   particular add_file(p, input_only=False) of an EXISTING p treats p as an input: it is
-   copied into the temp directory, recorded as pre-existing, NOT scheduled for copy-out;
-   what the pipeline writes to its real_location is discarded by del (ex_tracker_life:
-   content 101 is lost, the old result 21 stays).
+(* (1) With a tmp_dir: every file that existed before the tracker was made and that the
+   environment does not write keeps its content while the tracker lives and after del —
+   whatever was added, in whatever mode, wherever else the environment writes.  The tracker
+   itself (the copies of add_file, the copy-out and the clean-up of del) never changes an
+   existing file.  In particular add_file(p, input_only=False) of an EXISTING p treats p as an
+   input: it is copied into the temp directory, recorded as pre-existing, NOT scheduled for
+   copy-out; what the pipeline writes to its real_location is discarded by del
+   (ex_tracker_life: content 101 is lost, the old result 21 stays).
    Without a tmp_dir the tracker never touches the file system: a path changes only if the
    environment writes to it; real_location(p) is p itself — the environment writing to the
    real_location of an input writes the input (c19_tracker_inputs_untouched_no_tmp_refuted). *)
 Theorem c19_tracker_inputs_untouched :
   (forall f0 d n0 mid p c,
      wf f0 -> look f0 d = Dir -> look f0 (d ++ [n0]) = Absent -> forallb mid_op mid = true ->
-     writes_ok (start f0) [] (Create (Some d) n0 :: mid) = true ->
+     forallb (fun o => negb (writes_to p o)) mid = true ->
      look f0 p = File c ->
      look (s_fs (alive f0 (Some d) n0 mid)) p = File c /\
      look (s_fs (life f0 (Some d) n0 mid)) p = File c) /\
@@ -368,44 +385,54 @@ Theorem c19_tracker_inputs_untouched :
 Proof. exact tracker_inputs_untouched. Qed.
 Print Assumptions c19_tracker_inputs_untouched.
 
-(* (2) After del (which succeeds: output OOk, for EVERY call sequence, also when the
-   environment writes anywhere) the tracker is gone, its temp directory and everything
-   below it is absent; under the protocol nothing else is new anywhere — so in particular
-   nothing under the tmp_dir parent — except paths given to add_file(.., input_only=False). *)
+(* (2) After del (which succeeds: output OOk, for EVERY call sequence, wherever the environment
+   writes) the tracker is gone, its temp directory and everything below it is absent; and
+   whatever is new anywhere — so in particular under the tmp_dir parent — was either given to
+   add_file(.., input_only=False) or written by the environment itself (W). *)
 Theorem c19_tracker_scratch_empty : forall f0 d n0 mid,
   wf f0 -> look f0 d = Dir -> look f0 (d ++ [n0]) = Absent -> forallb mid_op mid = true ->
   s_tr (life f0 (Some d) n0 mid) = None /\
   snd (step (alive f0 (Some d) n0 mid) Del) = OOk /\
   (forall q, is_prefix (d ++ [n0]) q = true -> look (s_fs (life f0 (Some d) n0 mid)) q = Absent) /\
-  (writes_ok (start f0) [] (Create (Some d) n0 :: mid) = true ->
-   forall q, look f0 q = Absent -> look (s_fs (life f0 (Some d) n0 mid)) q <> Absent ->
-             In q (requested mid)).
+  (forall q, look f0 q = Absent -> look (s_fs (life f0 (Some d) n0 mid)) q <> Absent ->
+             In q (requested mid) \/ In q (written mid)).
 Proof. exact tracker_scratch_empty. Qed.
 Print Assumptions c19_tracker_scratch_empty.
 
-(* (3) With a tmp_dir, under the protocol: what is new after del was requested by
-   add_file(.., input_only=False); what del copies out (_to_write_out) was requested and did
-   not exist before; and — when no requested path lies inside the tracker's own directory —
-   each copied-out path holds exactly what its real_location held when del ran, which is
-   the content last written there (c19_tracker_location_holds_last_write).  Without a
-   tmp_dir the writes went to the paths themselves (second half of (1)). *)
+(* (3) With a tmp_dir: what is new after del was requested by add_file(.., input_only=False) or
+   written by the environment; what del copies out (_to_write_out) was requested and did not
+   exist before; — when no requested path lies inside the tracker's own directory — each
+   copied-out path holds exactly what its real_location (a file directly in the tracker's
+   directory) held when del ran, which is the content last written there
+   (c19_tracker_location_holds_last_write); and every other file outside the tracker's directory
+   (the environment's own products: marker cache, buffers, CSV) goes through del unchanged.
+   Without a tmp_dir the writes went to the paths themselves (second half of (1)). *)
 Theorem c19_tracker_outputs_only_where_requested : forall f0 d n0 mid,
   wf f0 -> look f0 d = Dir -> look f0 (d ++ [n0]) = Absent -> forallb mid_op mid = true ->
-  writes_ok (start f0) [] (Create (Some d) n0 :: mid) = true ->
-  (forall q, look f0 q = Absent -> look (s_fs (life f0 (Some d) n0 mid)) q <> Absent -> In q (requested mid)) /\
+  (forall q, look f0 q = Absent -> look (s_fs (life f0 (Some d) n0 mid)) q <> Absent ->
+             In q (requested mid) \/ In q (written mid)) /\
   (forall dst, In dst (outs_of (alive f0 (Some d) n0 mid)) -> In dst (requested mid) /\ look f0 dst = Absent) /\
   ((forall p, In p (requested mid) -> is_prefix (d ++ [n0]) p = false) ->
    forall dst, In dst (outs_of (alive f0 (Some d) n0 mid)) ->
    exists src c, snd (step (alive f0 (Some d) n0 mid) (RealLocation dst)) = OLoc src /\
+                 child_of (d ++ [n0]) src = true /\
                  look (s_fs (alive f0 (Some d) n0 mid)) src = File c /\
-                 look (s_fs (life f0 (Some d) n0 mid)) dst = File c).
+                 look (s_fs (life f0 (Some d) n0 mid)) dst = File c) /\
+  (forall q c, is_prefix (d ++ [n0]) q = false -> ~ In q (outs_of (alive f0 (Some d) n0 mid)) ->
+     look (s_fs (alive f0 (Some d) n0 mid)) q = File c -> look (s_fs (life f0 (Some d) n0 mid)) q = File c).
 Proof. exact tracker_outputs_only_where_requested. Qed.
 Print Assumptions c19_tracker_outputs_only_where_requested.
 
+(* A write of the environment to a location real_location has handed out before (first
+   alternative) — or any write that succeeded, wherever (second alternative: the marker cache,
+   the CSV) — is what the path holds while the tracker lives, until the environment writes that
+   path again: neither add_file nor another write disturbs it.  (A handed-out location can
+   always be written: Proofs/TrackerP.v handed_writable.) *)
 Theorem c19_tracker_location_holds_last_write : forall f0 d n0 m1 l c m2,
   wf f0 -> look f0 d = Dir -> look f0 (d ++ [n0]) = Absent ->
   forallb mid_op (m1 ++ WriteTo l c :: m2) = true ->
-  writes_ok (start f0) [] (Create (Some d) n0 :: m1 ++ WriteTo l c :: m2) = true ->
+  In (OLoc l) (snd (run (start f0) (Create (Some d) n0 :: m1))) \/
+    snd (step (alive f0 (Some d) n0 m1) (WriteTo l c)) = OOk ->
   forallb (fun o => negb (writes_to l o)) m2 = true ->
   look (s_fs (alive f0 (Some d) n0 (m1 ++ WriteTo l c :: m2))) l = File c.
 Proof. exact tracker_location_holds_last_write. Qed.
@@ -426,28 +453,34 @@ Theorem c19_tracker_copy_faithful : forall f0 d n0 mid p l,
 Proof. exact tracker_copy_faithful. Qed.
 Print Assumptions c19_tracker_copy_faithful.
 
-(* (5) Two initial file systems that differ ONLY in what lies in the tmp_dir parent d under
-   other names than the tracker's directory (stale d T q: q below d, not T, not below T),
-   and calls that name no such path: every call returns the same, the final file systems
-   agree outside the stale part, and the stale part of each is exactly as it was (neither
-   read — the outputs do not depend on it — nor changed).  The drawn names are the same in
-   both runs (they are inputs; they are legal in both because T is not stale). *)
+(* (5) STALE = at or below an entry that the tmp_dir parent d had BEFORE the life began, in
+   either file system (`entries f d`: the names present in d; stale_in d E q: q lies at or below
+   d ++ [a], a in E).  What the run itself makes in d during the life — the tracker's directory,
+   but also fresh siblings the environment writes there, like _run_mapping's query-marker cache —
+   is NOT stale (the earlier definition "everything in d beside the tracker's directory" made the
+   premise false for the real caller).
+   Two initial file systems that differ ONLY in the stale part, and calls that name no stale
+   path: every call returns the same, the final file systems agree outside the stale part, and
+   the stale part of each is exactly as it was (neither read — the outputs do not depend on it
+   — nor changed).  The drawn names are the same in both runs (they are inputs; the tracker's
+   name is new in both). *)
 Theorem c19_tracker_independent_of_stale : forall d n0 f0 f0' mid,
-  wf f0 -> wf f0' -> look f0 d = Dir -> look f0 (d ++ [n0]) = Absent -> forallb mid_op mid = true ->
-  (forall q, stale d (d ++ [n0]) q = false -> look f0 q = look f0' q) ->
-  (forall o p, In o mid -> In p (op_paths o) -> stale d (d ++ [n0]) p = false) ->
+  wf f0 -> wf f0' -> look f0 d = Dir -> look f0 (d ++ [n0]) = Absent -> look f0' (d ++ [n0]) = Absent ->
+  forallb mid_op mid = true ->
+  (forall q, stale_in d (entries f0 d ++ entries f0' d) q = false -> look f0 q = look f0' q) ->
+  (forall o p, In o mid -> In p (op_paths o) -> stale_in d (entries f0 d ++ entries f0' d) p = false) ->
   snd (run (start f0) (Create (Some d) n0 :: mid ++ [Del])) =
   snd (run (start f0') (Create (Some d) n0 :: mid ++ [Del])) /\
-  (forall q, stale d (d ++ [n0]) q = false ->
+  (forall q, stale_in d (entries f0 d ++ entries f0' d) q = false ->
      look (s_fs (life f0 (Some d) n0 mid)) q = look (s_fs (life f0' (Some d) n0 mid)) q) /\
-  (forall q, stale d (d ++ [n0]) q = true ->
+  (forall q, stale_in d (entries f0 d ++ entries f0' d) q = true ->
      look (s_fs (life f0 (Some d) n0 mid)) q = look f0 q /\
      look (s_fs (life f0' (Some d) n0 mid)) q = look f0' q).
 Proof. exact tracker_independent_of_stale. Qed.
 Print Assumptions c19_tracker_independent_of_stale.
 
-(* A life leaves a well-formed file system well formed (also without tmp_dir, also when the
-   environment writes anywhere): the theorems above apply again to the next tracker, on what
+(* A life leaves a well-formed file system well formed (also without tmp_dir, wherever the
+   environment writes): the theorems above apply again to the next tracker, on what
    this one left — histories of runs sharing a tmp_dir are covered by iterating them. *)
 Theorem c19_tracker_life_keeps_wf : forall f0 tmp n0 mid,
   wf f0 -> forallb mid_op mid = true ->
@@ -455,6 +488,17 @@ Theorem c19_tracker_life_keeps_wf : forall f0 tmp n0 mid,
   wf (s_fs (life f0 tmp n0 mid)).
 Proof. exact tracker_life_keeps_wf. Qed.
 Print Assumptions c19_tracker_life_keeps_wf.
+
+(* The boolean `life_premise f0 d n0 mid` (Model/Tracker.v) yields every hypothesis used above
+   for a life with a tmp_dir: (1) for every file of f0, (3) third part, (5) with f0' := f0's
+   twin.  The harness evaluates it (tag 1954) on the life recorded from a real run_mapping. *)
+Theorem c19_tracker_premise : forall f0 d n0 mid, life_premise f0 d n0 mid = true ->
+  wf f0 /\ look f0 d = Dir /\ look f0 (d ++ [n0]) = Absent /\ forallb mid_op mid = true /\
+  (forall p c, look f0 p = File c -> forallb (fun o => negb (writes_to p o)) mid = true) /\
+  (forall p, In p (requested mid) -> is_prefix (d ++ [n0]) p = false) /\
+  (forall o p, In o mid -> In p (op_paths o) -> stale_in d (entries f0 d) p = false).
+Proof. exact life_premise_spec. Qed.
+Print Assumptions c19_tracker_premise.
 
 (* ------------------------------------------------------------------ examples (tracker) *)
 (* names: 1 = in/, 2 = out/, 3 = tmp/; [1;1] query (11), [1;2] statistics (12); [2;1] the
@@ -473,8 +517,8 @@ Definition tr_mid : list op :=
 Example ex_tracker_hypotheses :
   wf tr_fs /\ look tr_fs [3] = Dir /\ look tr_fs ([3] ++ [5]) = Absent /\
   forallb mid_op tr_mid = true /\
-  writes_ok (start tr_fs) [] (Create (Some [3]) 5 :: tr_mid) = true /\
-  requested tr_mid = [[2;2]; [2;1]] /\
+  life_premise tr_fs [3] 5 tr_mid = true /\
+  requested tr_mid = [[2;2]; [2;1]] /\ written tr_mid = [[3;5;52]; [3;5;53]] /\
   outs_of (alive tr_fs (Some [3]) 5 tr_mid) = [[2;2]] /\
   (forall p, In p (requested tr_mid) -> is_prefix ([3] ++ [5]) p = false).
 Proof.
@@ -497,8 +541,46 @@ Example ex_tracker_life :
   look g [3;5] = Absent /\ look g [3;5;52] = Absent /\ look g [3;9;1] = File 7.
 Proof. vm_compute. repeat split; reflexivity. Qed.
 
+(* THE LIFE OF THE REAL CALLER (cli/from_specified_markers.py:_run_mapping, obsm_key unset).
+   run_mapping has made its own directory [3;5] (cell_type_mapper_NNN) and the result buffer
+   [3;7] (result_buffer_NNN) in the scratch directory [3] before; [1;3] is the marker lookup.
+     FileTracker(tmp_dir=[3;5])                      -> its directory [3;5;6] (file_tracker_NNN)
+     add_file(query, input_only=True); add_file(statistics, input_only=True)
+     real_location(query); real_location(statistics)
+     the environment writes: the query-marker cache [3;5;60] (mkstemp_clean(dir=tmp_dir): a
+       SIBLING of the tracker's directory), an assignment file in the result buffer [3;7;70]
+       (in reality inside a directory the type-assignment stage makes there: the model's
+       environment has no mkdir), the CSV [2;3]
+     the tracker dies when _run_mapping returns.
+   The strict protocol `writes_ok` is FALSE on this life; every hypothesis of the theorems
+   (life_premise) holds: nothing requested, no input written, nothing stale named — the marker
+   cache is a fresh sibling, not an entry [3;5] had before.  After del the tracker's directory is
+   gone, the inputs are as before, and what is new is exactly W (run_mapping removes [3;5] and
+   [3;7] afterwards: Props above, the acceptor). *)
+Definition real_fs : fs :=
+  [([], (KDir, 0)); ([1], (KDir, 0)); ([2], (KDir, 0)); ([3], (KDir, 0));
+   ([1;1], (KFile, 11)); ([1;2], (KFile, 12)); ([1;3], (KFile, 13)); ([2;1], (KFile, 21));
+   ([3;5], (KDir, 0)); ([3;7], (KDir, 0)); ([3;9], (KDir, 0)); ([3;9;1], (KFile, 7))].
+Definition real_mid : list op :=
+  [ AddFile [1;1] true 51; AddFile [1;2] true 52; RealLocation [1;1]; RealLocation [1;2];
+    WriteTo [3;5;60] 100; WriteTo [3;7;70] 101; WriteTo [2;3] 102 ].
+
+Example ex_real_life :
+  writes_ok (start real_fs) [] (Tracker.Create (Some [3;5]) 6 :: real_mid) = false /\
+  life_premise real_fs [3;5] 6 real_mid = true /\
+  requested real_mid = [] /\ written real_mid = [[3;5;60]; [3;7;70]; [2;3]] /\
+  entries real_fs [3;5] = [] /\
+  snd (run (start real_fs) (Tracker.Create (Some [3;5]) 6 :: real_mid ++ [Del])) =
+    [OOk; OOk; OOk; OLoc [3;5;6;51]; OLoc [3;5;6;52]; OOk; OOk; OOk; OOk] /\
+  let g := s_fs (life real_fs (Some [3;5]) 6 real_mid) in
+  look g [3;5;6] = Absent /\ look g [3;5;6;51] = Absent /\
+  look g [1;1] = File 11 /\ look g [1;2] = File 12 /\ look g [1;3] = File 13 /\ look g [2;1] = File 21 /\
+  look g [3;5;60] = File 100 /\ look g [3;7;70] = File 101 /\ look g [2;3] = File 102 /\
+  look g [3;9;1] = File 7.
+Proof. vm_compute. repeat split; reflexivity. Qed.
+
 (* (1) fails without a tmp_dir when the environment writes to the real_location of an
-   input: the location IS the input *)
+   input: the location IS the input — even under the strict protocol writes_ok *)
 Theorem c19_tracker_inputs_untouched_no_tmp_refuted :
   exists f0 n0 mid p c,
     wf f0 /\ forallb mid_op mid = true /\
@@ -533,19 +615,27 @@ Example ex_tracker_errors :
   snd (step (start tr_fs) (Create (Some [3]) 9)) = OErr 5.
 Proof. vm_compute. repeat split; reflexivity. Qed.
 
-(* (5): the same life on a file system with OTHER stale entries in tmp/ *)
+(* (5): the same life on a file system with OTHER stale entries in tmp/; here the environment
+   also writes a fresh sibling [3;60] of the tracker's directory — not stale *)
 Definition tr_fs' : fs :=
   [([], (KDir, 0)); ([1], (KDir, 0)); ([2], (KDir, 0)); ([3], (KDir, 0));
    ([1;1], (KFile, 11)); ([1;2], (KFile, 12)); ([2;1], (KFile, 21));
    ([3;8], (KFile, 3)); ([3;4], (KDir, 0)); ([3;4;51], (KFile, 4))].
+Definition tr_mid5 : list op := tr_mid ++ [WriteTo [3;60] 102].
 Example ex_tracker_stale_hypotheses :
-  wf tr_fs' /\
-  (forall q, stale [3] ([3] ++ [5]) q = false -> look tr_fs q = look tr_fs' q) /\
-  (forall o p, In o tr_mid -> In p (op_paths o) -> stale [3] ([3] ++ [5]) p = false) /\
-  stale [3] ([3] ++ [5]) [3;9;1] = true /\ look tr_fs [3;9;1] <> look tr_fs' [3;9;1].
+  let E := entries tr_fs [3] ++ entries tr_fs' [3] in
+  E = [9; 8; 4] /\ wf tr_fs' /\ look tr_fs' ([3] ++ [5]) = Absent /\
+  (forall q, stale_in [3] E q = false -> look tr_fs q = look tr_fs' q) /\
+  (forall o p, In o tr_mid5 -> In p (op_paths o) -> stale_in [3] E p = false) /\
+  stale_in [3] E [3;9;1] = true /\ look tr_fs [3;9;1] <> look tr_fs' [3;9;1] /\
+  stale_in [3] E [3;60] = false /\
+  look (s_fs (life tr_fs (Some [3]) 5 tr_mid5)) [3;60] = File 102.
 Proof.
+  split; [vm_compute; reflexivity|].
   split; [apply wfb_wf; vm_compute; reflexivity|].
+  split; [vm_compute; reflexivity|].
   split; [apply agree_b_spec; vm_compute; reflexivity|].
   split; [apply ops_ns_b_spec; vm_compute; reflexivity|].
-  split; [vm_compute; reflexivity | vm_compute; discriminate].
+  split; [vm_compute; reflexivity|]. split; [vm_compute; discriminate|].
+  split; vm_compute; reflexivity.
 Qed.
